@@ -143,6 +143,8 @@ pub enum Alter {
 	Swap { rec: u16 },
 	Insert { typ: u64, v: Vec<u8> },
 	ReplaceKey { typ: u8, key: u8 },
+	/// replace a public key by its negation (same x coordinate, other parity byte)
+	NegateKey { typ: u8 },
 }
 
 #[derive(Clone, Debug, Serialize, Deserialize)]
@@ -265,6 +267,7 @@ fn alter() -> impl Strategy<Value = Alter> + Clone {
 			.prop_map(|(typ, v)| Alter::Insert { typ, v }),
 		// issuer id (22), payer id (88), invoice node id (176)
 		2 => (prop_oneof![Just(22u8), Just(88), Just(176)], any::<u8>()).prop_map(|(typ, key)| Alter::ReplaceKey { typ, key }),
+		2 => prop_oneof![Just(22u8), Just(88), Just(176)].prop_map(|typ| Alter::NegateKey { typ }),
 	]
 }
 
@@ -683,6 +686,13 @@ fn apply_alter(recs: &[rc::Tlv], a: &Alter) -> Option<Vec<rc::Tlv>> {
 			let r = out.iter_mut().find(|r| r.typ == *typ as u64)?;
 			r.value = key(*k).1.serialize().to_vec();
 		},
+		Alter::NegateKey { typ } => {
+			let r = out.iter_mut().find(|r| r.typ == *typ as u64)?;
+			if r.value.len() != 33 || (r.value[0] != 2 && r.value[0] != 3) {
+				return None;
+			}
+			r.value[0] ^= 1;
+		},
 	}
 	if out == recs {
 		return None;
@@ -715,6 +725,7 @@ fn alter_label(a: &Alter) -> String {
 			}
 		),
 		Alter::ReplaceKey { typ, .. } => format!("replace-key({})", typ),
+		Alter::NegateKey { typ } => format!("negate-key({})", typ),
 	}
 }
 
@@ -1054,6 +1065,45 @@ pub fn oracle(c: &Case, ctx: &mut Ctx) -> CaseResult {
 				}
 				ctx.label("f:request against altered offer refused");
 				ctx.label(&format!("alt-offer:{}", alter_label(a)));
+			}
+
+			// (iii-b) single-bit changes of the offer's bytes (sampled positions): the altered copy either does
+			// not parse, cannot be requested, or the request built against it is refused
+			if derived_keys || derived_meta {
+				let nbits = ob.len() * 8;
+				for f in c.flips.iter().take(24) {
+					let bit = ((*f as u64 * nbits as u64) >> 32) as usize;
+					let mut ab = ob.clone();
+					ab[bit / 8] ^= 1 << (bit % 8);
+					let Ok(aoffer) = Offer::try_from(ab.clone()) else { continue };
+					let Some(arecs) = rc::tlv_parse(&ab) else { continue };
+					if derived_keys && arecs.iter().any(|r| r.typ == 4) {
+						// a record type turned into offer_metadata: the class asserted in `finding_offer_metadata_injection`
+						ctx.label("f:offer bit flip creates an offer_metadata record (see finding part)");
+						continue;
+					}
+					let Ok(areq) = build_request(&aoffer, c, req, &p_ek) else { continue };
+					evals += 1;
+					let m = areq.clone().verify_using_metadata(&r_ek, secp).is_ok();
+					let d = areq.clone().verify_using_recipient_data(nonce(&c.nonce_o), &r_ek, secp).is_ok();
+					if m || d {
+						return Err(Failure::new(
+							"f:altered-offer-accepted",
+							format!(
+								"a request built against a copy of the offer with bit {} flipped (byte {}) verifies as the originator's ({}; metadata={} recipient_data={}).\n offer:   {}\n altered: {}",
+								bit,
+								bit / 8,
+								mode,
+								m,
+								d,
+								hex(&ob),
+								hex(&ab)
+							),
+						)
+						.with_key("b12/meta/altered-offer/bit-flip"));
+					}
+					ctx.label("f:request against bit-flipped offer refused");
+				}
 			}
 
 			// invoice
